@@ -252,6 +252,44 @@ func Run(o *drv.Out) {
 				if ci < 2 {
 					o.Sample(op + " -> " + res)
 				}
+				// within one block the node derives several sets from the same cached validator list
+				// (committee of every chain, then the delegates, lottery winners …) with no cache reset in
+				// between: follow up with more derivations on the same FSM, no reset, no writes
+				for extra := r.Intn(3); extra > 0; extra-- {
+					chain2 := uint64(r.Intn(4))
+					del2 := r.Intn(2) == 0
+					cp2 := capV
+					if del2 {
+						cp2 = capD
+					}
+					var vs2 lib.ValidatorSet
+					var e2 lib.ErrorI
+					if del2 {
+						vs2, e2 = sm.GetDelegates(chain2)
+					} else {
+						vs2, e2 = sm.GetCommitteeMembers(chain2)
+					}
+					d2 := 0
+					if del2 {
+						d2 = 1
+					}
+					op2 := fmt.Sprintf("members %d %d %d", chain2, cp2, d2)
+					res2 := showSet(vs2, e2)
+					o.Op(op2, res2)
+					o.Count("op:members-same-block")
+					ref2 := refMembers(curList(), chain2, cp2, del2)
+					var want2 []string
+					var T2 uint64
+					for _, v := range ref2 {
+						want2 = append(want2, fmt.Sprintf("%s:%d", drv.Hex(v.PublicKey), v.StakedAmount))
+						T2 += v.StakedAmount
+					}
+					if e2 == nil && !strings.HasSuffix(res2, "members="+strings.Join(want2, ",")) ||
+						e2 != nil && len(ref2) > 0 && T2 != 0 {
+						o.Fail("C13:committee-not-topk:repeated-derivation", "a second derivation from the same cached validator list differs from the highest-staked eligible validators",
+							map[string]any{"case": ci, "first": op, "op": op2, "got": res2, "want": want2})
+					}
+				}
 			case k < 9: // commit a version
 				if _, e := db.Commit(); e != nil {
 					panic(e)
